@@ -197,6 +197,11 @@ def gen_program(rng, pkg, n=None, p_explicit=0.15, p_hidden=0.12, min_memento=2,
         if has_mod({"nodes": nodes}, "i") and rng.random() < 0.3:
             vmod = "i"
         vars_.append({"name": "G%d" % j, "mod": vmod, "type": t, "value": val})
+        if t == "dict" and (val["k"] + val["z"]) % 2 == 0:
+            # the dictionary is built from a set of pairs: equal in every process, but its insertion order follows the
+            # process's string hashing
+            val["y"] = (val["k"] + val["z"]) % 5
+            vars_[-1]["from_set"] = True
     # call edges, variable reads, nested code
     for i, nd in enumerate(nodes):
         if nd["kind"] == "lambda":
@@ -370,6 +375,8 @@ def var_literal(var):
     if var["type"] == "date":
         y, mo, d = var["value"].split("-")
         return "datetime.date(%d, %d, %d)" % (int(y), int(mo), int(d))
+    if var.get("from_set"):
+        return "dict({%s})" % ", ".join(repr(kv) for kv in var["value"].items())
     return repr(var["value"])
 
 
